@@ -25,7 +25,8 @@ def main():
     na = []
     for pid in PROPS:
         path = os.path.join(VERIF, 'vlib', 'props', pid.lower() + '.py')
-        if not os.path.exists(path):
+        claimed = open(os.path.join(VERIF, 'tools', 'claimed.txt')).read().split()
+        if not os.path.exists(path) or pid not in claimed:
             na.append({'property_id': pid, 'reason': 'check not built yet (framework under construction); '
                                                     'see DESIGN.md section 4 for the planned generator and oracle'})
             continue
